@@ -74,6 +74,8 @@ fn judge(spec: &JobSpec, r: &JobResult, ref_ok: bool) -> (Option<(String, String
             } else if kind == "paths" {
                 // the stylesheet has no loop of its own inside one cartesian product: a verdict for any text
                 (Some((format!("hang(paths)@{}", site), format!("the extension algorithm built more than {} paths ({}) while the stylesheet itself had executed fewer than 10^5 statements: combinatorial blow-up, the compilation would run for minutes and exhaust memory", crate::job::PATHS_FUEL, site))), "violation")
+            } else if kind == "fs-retry" {
+                (Some(("hang(fs-retry)".into(), "a read that fails every time was retried more than 10 000 times: a retry loop that never gives up".into())), "violation")
             } else if kind == "depth" {
                 // only ever armed for corrupted text
                 (None, "inconclusive")
@@ -134,7 +136,7 @@ impl<'a> UnitRun<'a> {
                 self.res.bump(&format!("fired.{}", f.kind()), 1);
                 let at = match f {
                     Fault::ReadErr { at, .. } | Fault::CanonErr { at } | Fault::Vanish { at, .. } | Fault::Stall { at, .. } | Fault::Appear { at, .. } => *at as u64,
-                    Fault::Content { .. } => u64::MAX,
+                    Fault::Content { .. } | Fault::ReadErrAlways { .. } => u64::MAX,
                 };
                 if at != u64::MAX {
                     self.res.set_add("op_fault_pairs", mix(at, mix_str(1, &f.kind())));
@@ -305,6 +307,8 @@ impl FsFault {
                 FsOp::Read => {
                     for k in IO_KINDS {
                         plans.push(vec![Fault::ReadErr { at: ev.k, kind: k }]);
+                        // the same error, but one that does not go away
+                        plans.push(vec![Fault::ReadErrAlways { path: ev.path.clone(), kind: k }]);
                     }
                     plans.push(vec![Fault::Vanish { at: ev.k, target: None }]);
                 }
@@ -580,7 +584,7 @@ impl Engine for FsFault {
         }
     }
     fn rule(&self) -> String {
-        "workloads are seeded: multi-file projects (entry + 1..5 files reached through @import/@use/@forward/meta.load-css, three syntaxes, bodies from the pinned suite's inputs and outputs) and single corpus items under each extension, as entry and as loaded file. Per workload the fault position is enumerated: every Fs operation index of the fault-free run x every applicable error kind (read_err x5, canon_err, vanish, vanish-after-is_file), and per delivered file torn(n) for every byte offset n (stratified for files > 256 B in the quick tier), zeroed, zero_tail, bitflip, invalid-UTF-8 byte, stale_tail; plus a 10% tail of two-fault runs; per sweep item one scenario in which a file loaded twice is rewritten between the two reads (shorter, torn, flipped or different text on the second read). In addition every single-bit flip and every typographic look-alike substitution (no-break space, en dash, curly quotes, …) of every corpus item of at most 48 bytes (thorough: 400 bytes) is delivered as an entry file. A case is non-trivial iff its fault actually fired (the call happened and was altered); distinct = distinct (workload hash, fault list) among those.".into()
+        "workloads are seeded: multi-file projects (entry + 1..5 files reached through @import/@use/@forward/meta.load-css, three syntaxes, bodies from the pinned suite's inputs and outputs) and single corpus items under each extension, as entry and as loaded file. Per workload the fault position is enumerated: every Fs operation index of the fault-free run x every applicable error kind (read_err x5 once and persistently, canon_err, vanish, vanish-after-is_file), and per delivered file torn(n) for every byte offset n (stratified for files > 256 B in the quick tier), zeroed, zero_tail, bitflip, invalid-UTF-8 byte, stale_tail; plus a 10% tail of two-fault runs; per sweep item one scenario in which a file loaded twice is rewritten between the two reads (shorter, torn, flipped or different text on the second read). In addition every single-bit flip and every typographic look-alike substitution (no-break space, en dash, curly quotes, …) of every corpus item of at most 48 bytes (thorough: 400 bytes) is delivered as an entry file. A case is non-trivial iff its fault actually fired (the call happened and was altered); distinct = distinct (workload hash, fault list) among those.".into()
     }
     fn assumptions(&self) -> Vec<String> {
         vec![
